@@ -179,7 +179,60 @@ def code_case(case):
     return r
 
 
+def tiny_case(case):
+    """time measured in tiny units: steps of 1e-7 .. 1e-5 (float32) or 1e-15 .. 1e-13 (float64) with |lambda| correspondingly large, so that z = h lambda is
+    of ordinary size while two consecutive steps of ONE integrator object differ by less than any absolute threshold of a few eps and yet by a factor of 4.
+    The second step is judged against R(z2)."""
+    de, I = _imports()
+    r = Res()
+    M = by_name(case["method"])
+    A, c, b = tab(M)
+    dtype = np.float32 if case["dtype"] == "float32" else np.float64
+    eps = float(np.finfo(dtype).eps)
+    ts = case["tscale"]
+    lam = np.exp(1j * case["theta"]); lam = complex(min(lam.real, 0.0), lam.imag) * case["sign"] / ts
+    Lm = np.array([[lam.real, -lam.imag], [lam.imag, lam.real]], dtype=dtype)
+    tolv = 1e-4 if dtype is np.float32 else 1e-10
+
+    def f(t, y, **kw):
+        return Lm @ y
+
+    def jac(t, y, **kw):
+        return Lm.copy()
+    rhs = de.DiffRHS(f); rhs.hook_jacobian_call(jac)
+    y0 = np.array([1.0, 0.0], dtype=dtype)
+    m = M(y0.shape, dtype=np.dtype(dtype), rtol=dtype(tolv), atol=dtype(tolv))
+    h1 = dtype(case["sign"] * case["r"] * ts); h2 = dtype(4.0) * h1
+    r.n = 1
+    try:
+        _, (dT1, dY1) = m(rhs, dtype(0.0), y0, {}, h1)
+        y1 = (y0 + dY1).astype(dtype)
+        _, (dT2, dY2) = m(rhs, dtype(0.0) + dT1, y1, {}, h2)
+    except de.exception_types.FailedToMeetTolerances:
+        r.add("not_accepted"); r.out(("tiny", case["method"], case["dtype"], "no-accept"))
+        return r
+    r.add("accepted")
+    y2 = y1 + dY2
+    z2 = complex(float(dT2)) * complex(float(Lm[0, 0]), float(Lm[1, 0]))
+    R, rb, cond = Rz(A, b, z2)
+    s_ = len(b)
+    x = np.linalg.solve((np.eye(s_) - z2 * A).T, b)
+    amp = 1 + abs(z2) * np.sum(np.abs(x)) * np.sqrt(2 * s_)
+    y1c = complex(float(y1[0]), float(y1[1])); y2c = complex(float(y2[0]), float(y2[1]))
+    bound = (4 * 0.5 * (tolv + tolv * abs(y1c)) * amp + rb + K * eps * (1 + cond) * (1 + abs(z2) * float(np.abs(b) @ np.abs(np.linalg.solve(np.eye(s_) - z2 * A, np.ones(s_)))))) * max(1.0, abs(y1c))
+    if abs(y2c) - abs(y1c) > bound:
+        r.v("C11/step-grows/%s" % case["method"], "an accepted step never increases |y| for Re(lambda) <= 0", case,
+            observed=dict(abs_y1=abs(y1c), abs_y2=abs(y2c), dT=[float(dT1), float(dT2)], z2=[z2.real, z2.imag], bound=bound), expected="|y2| <= |y1|")
+    elif abs(y2c - R * y1c) > bound:
+        r.v("C11/step-vs-R/%s" % case["method"], "computed step agrees with the scheme's stability function", case,
+            observed=dict(y2=[y2c.real, y2c.imag], R_y1=[(R * y1c).real, (R * y1c).imag], err=abs(y2c - R * y1c), bound=bound, dT=[float(dT1), float(dT2)]), expected="y2 = R(dT2*lambda) y1")
+    r.out(("tiny", case["method"], case["dtype"], case["sign"], "accepted"))
+    return r
+
+
 def run_case(case):
+    if case["section"] == "tiny":
+        return tiny_case(case)
     return table_case(case) if case["section"] == "table" else code_case(case)
 
 
@@ -211,6 +264,13 @@ def run(ctx):
                     if abs(np.log10(rad) % 2) < 1e-9 or not ctx.quick:
                         for ncols, jc in ((2, "user"), (3, "user")) + (((3, "fd"),) if abs(th - 0.75 * np.pi) < 1e-9 else ()):
                             cases.append(dict(section="code", method=M.__name__, r=float(rad), theta=float(th), sign=sgn, dim=2, cols=ncols, jac=jc))
+    # time in tiny units, two consecutive steps of one object (ratio 4, absolute difference below a few eps)
+    for M in implicit_classes():
+        for dn, ts in (("float32", 1e-7), ("float64", 1e-15), ("float64", 1e-9)):
+            for rad in (0.25, 1.0, 4.0):
+                for th in (0.625 * np.pi, np.pi):
+                    for sgn in (1, -1):
+                        cases.append(dict(section="tiny", method=M.__name__, dtype=dn, tscale=ts, r=rad, theta=float(th), sign=sgn))
     grid.pmap(run_case, cases, ctx, horizon=300)
 
 
